@@ -93,25 +93,49 @@ class Result:
         self.reason = reason
 
 
+PORTFOLIO = [
+    # (fraction of the z3 budget, options): e-matching only first (all spec quantifiers carry
+    # patterns; when a proof exists this finds it fastest), then the default configuration, then
+    # other random seeds -- quantifier instantiation order is fragile, a small portfolio makes the
+    # verdicts stable under load and under harmless edits
+    (0.3, {"mbqi": False}),
+    (1.0, {}),
+    (0.5, {"random_seed": 7}),
+]
+
+
 def prove(pc, goal, use_cvc5=True, timeout_ms=None):
     """Is `goal` a consequence of the path condition `pc`?"""
     t0 = time.time()
-    s = _mk_solver(timeout_ms or Z3_TIMEOUT_MS)
-    for p in pc:
-        s.add(p)
-    s.add(z3.Not(goal))
-    r = s.check()
+    budget = timeout_ms or Z3_TIMEOUT_MS
+    reason = ""
+    last = None
+    for frac, opts in PORTFOLIO:
+        s = z3.SimpleSolver()
+        s.set("timeout", max(200, int(budget * frac)))
+        for k, v in opts.items():
+            s.set(k, v)
+        for p in pc:
+            s.add(p)
+        s.add(z3.Not(goal))
+        r = s.check()
+        last = s
+        STATS["z3_calls"] += 1
+        if r == z3.unsat:
+            dt = time.time() - t0
+            STATS["z3_time"] += dt
+            STATS["stage_" + str(PORTFOLIO.index((frac, opts)))] = STATS.get("stage_" + str(PORTFOLIO.index((frac, opts))), 0) + 1
+            return Result("proved", "z3", dt)
+        if r == z3.sat:
+            dt = time.time() - t0
+            STATS["z3_time"] += dt
+            return Result("refuted", "z3", dt, s.model())
+        reason = s.reason_unknown()
     dt = time.time() - t0
-    STATS["z3_calls"] += 1
     STATS["z3_time"] += dt
-    if r == z3.unsat:
-        return Result("proved", "z3", dt)
-    if r == z3.sat:
-        return Result("refuted", "z3", dt, s.model())
-    reason = s.reason_unknown()
     if use_cvc5:
         try:
-            txt = s.to_smt2()
+            txt = last.to_smt2()
             a = cvc5_check(txt)
         except Exception as e:  # pragma: no cover
             a = "unknown"
